@@ -912,3 +912,31 @@ class _AnyValue(Kind):
 
 
 AnyValue = _AnyValue()
+
+
+class PairProduct:
+    """itertools.product(A, B) of two symbolic sets whose elements are not integers: iterating yields the pairs (a, b)."""
+
+    def __init__(self, a, b):
+        self.a, self.b = a, b
+
+
+class RepeatV:
+    """itertools.repeat(x): the same object again and again."""
+
+    def __init__(self, item):
+        self.item = item
+
+
+class ZipPairsRepeat:
+    """zip(product(A, B), repeat(x)): the pairs ((a, b), x)."""
+
+    def __init__(self, prod, rep):
+        self.prod, self.rep = prod, rep
+
+
+class LazyFilter:
+    """filter(pred, <symbolic iteration>) that has not been consumed yet (only `next(it, default)` is modelled)."""
+
+    def __init__(self, fn, src):
+        self.fn, self.src = fn, src
